@@ -114,6 +114,7 @@ pub fn evidence_json(st: &Stats, m: &EvidenceMeta) -> J {
                 ("instantiation_axes", J::s("7 solvers x {Const<1..4>, Dyn(1..6)} x {f64, Complex<f64>} x user data {(), Counter}")),
                 ("surfaced_as_err_item", J::U(st.surfaced)),
                 ("surfaced_error_was_not_the_first_fired", J::U(st.surfaced_not_first)),
+                ("surfaced_error_not_in_the_items_source_chain_not_judged", J::U(st.not_in_source_chain)),
                 ("max_derivative_calls_after_failing_call", J::U(st.calls_after_fire_max)),
                 ("max_ok_items_after_failing_call", J::U(st.ok_after_fire_max)),
                 ("distinct_fault_sites", J::U(st.sites.len() as u64)),
@@ -164,9 +165,11 @@ pub fn evidence_json(st: &Stats, m: &EvidenceMeta) -> J {
                 ("rejections_by_error", map_table(&st.rejected_by_class)),
                 ("max_chain_length", J::U(m.maxlen as u64)),
                 ("alphabet", m.alphabet.clone()),
-                ("hook_reads_B7", J::U(st.hook_reads)),
+                ("builder_level_hook_reads", J::U(st.hook_reads)),
                 ("hook_reads_with_both_bounds_set", J::U(st.hook_both_set)),
                 ("hook_reads_where_a_clamping_branch_ran", J::U(st.hook_clamped)),
+                ("solver_level_bound_reads_B7", J::U(st.solver_bound_reads)),
+                ("builder_fields_seen_inverted_before_solve_not_judged", J::U(st.builder_inverted)),
                 ("euler_nonpositive_tolerance_accepted", J::U(st.euler_tol_nonpositive_ok)),
             ]),
         ),
